@@ -33,8 +33,13 @@ ReadKinds    == {"select", "show"}
 SessionKinds == {"set", "begin", "use"}          \* answered by the proxy itself
 Kinds        == WriteKinds \cup ReadKinds \cup SessionKinds
 
-Leads    == {"none", "space", "tab", "newline", "comment", "comment_glued", "dash", "version_wrap"}
-Kwseps   == {"space", "tab", "newline", "comment", "spcomment"}   \* between the first keyword and the rest
+LongLeads == {"pad_250", "pad_255", "pad_256", "pad_257", "pad_4096", "ws_300"}
+               \* pad_N: a leading comment (e.g. a tracing comment) so long that the first keyword starts at byte N;
+               \* ws_300: 300 blanks before the first keyword
+Leads    == {"none", "space", "tab", "newline", "comment", "comment_glued", "dash", "version_wrap"} \cup LongLeads
+Kwseps   == {"space", "tab", "newline", "comment", "spcomment",   \* between the first keyword and the rest
+             "glued_bq",                                          \* nothing: keyword glued to a back-quoted identifier (update`t` set ..)
+             "glued_punct"}                                       \* nothing: keyword glued to punctuation (select*from .., select(..) ..)
 Cases    == {"lower", "upper", "mixed"}
 Trails   == {"none", "semicolon", "newline", "comment", "comment_glued", "trace", "dash", "hash"}
 Locks    == {"none", "for_update", "for_share", "lock_in_share_mode"}
@@ -69,6 +74,8 @@ PolWF(d) ==
     /\ d.hint # "none" => d.kind \in ReadKinds
     /\ d.lead = "version_wrap" => d.hint = "none"
     /\ d.kwsep # "space" => ~OneWord(d.kind)
+    /\ d.kwsep = "glued_bq" => d.kind \in {"select", "update", "insert", "replace", "truncate"} /\ d.probe = "none" /\ d.hint # "afterkw"
+    /\ d.kwsep = "glued_punct" => d.kind = "select" /\ d.probe = "none" /\ d.hint # "afterkw"
 
 (* ---- the decisions, from the property texts ---- *)
 Modifies(d)      == d.kind \in WriteKinds
